@@ -545,6 +545,7 @@ fn stream_limits(a: &Args) {
         let family = match fam {
             CostFamily::TieFree => "random_tie_free",
             CostFamily::TieRich => "random_tie_rich",
+            _ => "random_long_haul",
         };
         add_limits_case(&mut st, family, &w, &q, None, &mut r);
     }
